@@ -20,6 +20,8 @@ func init() {
 			"no-password-on-argv: taint analysis shows no credential reaches an exec.Command argument. NOT decided: that crypto/ssh and the ssh binary honour these settings (trusted), behaviour against a live server.",
 		Assumptions: []string{"crypto/ssh verifies the host key through HostKeyCallback; the OpenSSH client honours its options", "knownhosts.New builds a callback that accepts only keys present in the given file"},
 		Mutants: []Mutant{
+			{ID: "C14-unreadable-key-only-logged", Desc: "the system transport only logs a private key it cannot read", Rule: "C14/key-errors-surface",
+				Edits: []Edit{{File: "transport/system.go", Old: "\t\t\ta.l.Criticalf(\"error reading ssh key: %s\", err)\n\n\t\t\treturn err\n\t\t}\n\n\t\t_, err = ssh.ParsePrivateKey(k)\n\t\tif err != nil {", New: "\t\t\ta.l.Infof(\"ssh key not readable locally: %s\", err)\n\t\t} else if _, err = ssh.ParsePrivateKey(k); err != nil {"}}},
 			{ID: "C14-system-file-first", Desc: "the system-wide ssh config is tried before the user's", Rule: "C14/system-files-first-wins",
 				Edits: []Edit{{File: "driver/options/transportssh.go", Old: "\t\tsshF, err = util.ResolveFilePath(\"~/.ssh/config\")", New: "\t\tsshF, err = util.ResolveFilePath(\"/etc/ssh/ssh_config\")"},
 					{File: "driver/options/transportssh.go", Old: "\t\tsshF, err = util.ResolveFilePath(\"/etc/ssh/ssh_config\")\n\t\tif err == nil {\n\t\t\ta.ConfigFile = sshF\n\n\t\t\treturn nil\n\t\t}\n\n\t\treturn fmt.Errorf(", New: "\t\tsshF, err = util.ResolveFilePath(\"~/.ssh/config\")\n\t\tif err == nil {\n\t\t\ta.ConfigFile = sshF\n\n\t\t\treturn nil\n\t\t}\n\n\t\treturn fmt.Errorf("}}},
@@ -63,6 +65,8 @@ func runC14(c *Ctx, r *Report) {
 	importFoundation(c, r, "C14", "escalation-secret")
 	importFoundation(c, r, "C14", "driver-options")
 	importFoundation(c, r, "C14", "platform-fresh")
+	r.Rule("C14/key-errors-surface", "the error of reading or parsing the configured private key fails the open in both ssh transports (the connection is never made without the configured key)", 2)
+	checkKeyErrorsSurface(c, r, "C14/key-errors-surface")
 	r.Rule("C14/error-before-use", "in the constructors no product of a call is used before the error that came with it has been tested: ssh arguments that were rejected (an unusable key, known-hosts or config file option) are not used to open a connection", 1)
 	checkValueBeforeErrorCheck(c, r, "C14/error-before-use", constructorScope(c), "constructors")
 	r.Rule("C14/password-prompt-anchored", "the built-in pattern that decides when the login password is typed matches only where the prompt ends a line (the password goes to the authentication exchange only)", 1)
